@@ -57,7 +57,10 @@ func verifC16_seq() {
 	ops := vParam("ops", 2)
 	seq := ""
 	for i := 0; i < ops; i++ {
-		switch vChoose("op", 4) {
+		switch vChoose("op", 5) {
+		case 4:
+			seq += "X" // a Close call whose arguments cannot be marshalled (reason too long): nothing may be written
+			c.Close(StatusNormalClosure, string(vBytes("longReason", 124)))
 		case 0:
 			seq += "W"
 			c.Write(vBG, MessageBinary, vBytes("w", 1))
